@@ -39,6 +39,7 @@ FACTS = {
         ('partial_is_a_copy_with_own_items', 'elementpath/xpath_tokens/functions.py', 'XPathFunction.bind_partial_function', 'order', 'func = copy(self) ;; func._items = [ ;; func.to_partial_function() ;; return func'),
         ('partial_fills_placeholders', 'elementpath/xpath_tokens/functions.py', 'XPathFunction.bind_partial_function', 'order', "if self.label in ('partial function', 'inline partial function') and tokens is not self._items: ;; args = iter(tokens)"),
         ('dynamic_partial_binds', 'elementpath/xpath30/_xpath30_operators.py', 'evaluate__parenthesized_expression', 'has', 'return func.bind_partial_function(tokens, context)'),
+        ('sort_default_key_is_data', 'elementpath/xpath31/_xpath31_functions.py', 'evaluate__sort', 'order', 'items = [x for x in self[0].select(context)] ;; keys = [key_function([v for v in self.atomize_item(x)]) for x in items] ;; return xlist((items[k] for k in sorted(range(len(items)), key=keys.__getitem__)))'),
         ('sort_is_sorted_with_key', 'elementpath/xpath31/_xpath31_functions.py', 'evaluate__sort', 'has', 'sorted(self[0].select(context), key=key_function)'),
     ],
     'C12': [
@@ -59,6 +60,24 @@ FACTS = {
         ('restriction_star', 'elementpath/sequence_types.py', 'is_sequence_type_restriction', 'order', "elif st1[-1] == '*': ;; if st2[-1] in '?+': ;; return False"),
         ('restriction_same_name_first', 'elementpath/sequence_types.py', 'is_sequence_type_restriction', 'order', "if st1 == st2: ;; return True ;; return issubclass(builtin_atomic_types[st2], builtin_atomic_types[st1])"),
         ('instance_by_isinstance', 'elementpath/sequence_types.py', 'is_instance', 'has', 'return isinstance(obj, builtin_atomic_types[type_qname])'),
+    ],
+    'C11': [
+        ('implicit_timezone_on_copies', 'elementpath/xpath_tokens/base.py', 'XPathToken.with_implicit_timezone', 'order', 'value = copy(value) ;; value.tzinfo = context.timezone ;; return value'),
+        ('value_comparison_uses_implicit_timezone', 'elementpath/xpath2/_xpath2_operators.py', 'evaluate__value_comparison_operators', 'order', 'operands = [self.with_implicit_timezone(x, context) for x in operands] ;; return cast(bool, getattr(operator, self.symbol)(*operands))'),
+        ('general_comparison_uses_implicit_timezone', 'elementpath/xpath_tokens/base.py', 'XPathToken.iter_comparison_data', 'has', 'yield (self.with_implicit_timezone(op1, context), self.with_implicit_timezone(op2, context))'),
+        ('minus_uses_implicit_timezone', 'elementpath/xpath_tokens/base.py', 'XPathToken.get_operands', 'order', 'if op1.tzinfo is None: ;; op1 = copy(op1) ;; op1.tzinfo = context.timezone ;; if op2.tzinfo is None: ;; op2 = copy(op2) ;; op2.tzinfo = context.timezone'),
+        ('compare_same_tzinfo_fields', 'elementpath/datatypes/datetime.py', 'AbstractDateTime._compare', 'order', 'elif self._dt.tzinfo is dt.tzinfo: ;; return op(self._dt, dt) ;; elif self.tzinfo is None: ;; return op(self._dt.replace(tzinfo=_UTC_TIMEZONE), dt)'),
+        ('compare_out_of_range_years_as_instants', 'elementpath/datatypes/datetime.py', 'AbstractDateTime._compare', 'order', 'if self._year != year and (not (1 <= self._year <= 9999 and 1 <= year <= 9999)): ;; if isinstance(other, AbstractDateTime): ;; return op(self.todelta(), other.todelta())'),
+        ('min_max_use_implicit_timezone', 'elementpath/xpath2/_xpath2_functions.py', 'evaluate__max_min_functions', 'has', 'return aggregate_func(values, key=lambda x: self.with_implicit_timezone(x, context))'),
+        ('adjust_moves_by_offset_difference', 'elementpath/xpath_tokens/base.py', 'XPathToken.adjust_datetime', 'order', 'if isinstance(_tzinfo, Timezone) and isinstance(timezone, Timezone): ;; _item += timezone.offset - _tzinfo.offset ;; _item.tzinfo = timezone'),
+    ],
+    'C17': [
+        ('serialize_without_tail', 'elementpath/serialization.py', 'serialize_to_xml', 'order', 'if elem.tail: ;; elem = copy(elem) ;; elem.tail = None'),
+        ('serialize_no_rstrip_of_tail', 'elementpath/serialization.py', 'serialize_to_xml', 'lacks', '.rstrip(elem.tail)'),
+        ('deep_equal_content_items', 'elementpath/compare.py', 'deep_equal', 'order', 'if elem.text: ;; yield elem.text ;; for child in elem: ;; if not callable(child.tag): ;; yield child ;; if child.tail: ;; yield child.tail'),
+        ('deep_equal_text_exact', 'elementpath/compare.py', 'deep_equal', 'lacks', '.strip()'),
+        ('json_escape_no_sequential_replace', 'elementpath/helpers.py', 'escape_json_string', 'lacks', '.replace('),
+        ('json_escape_keeps_sequences', 'elementpath/helpers.py', 'escape_json_string', 'order', 'if len(chunk) == 2: ;; return chunk'),
     ],
     'C20': [
         ('cache_keyed_by_content_identity', 'elementpath/xpath_nodes.py', 'EtreeElementNode.apply_schema', 'has', 'element_match_cache[id(content)]'),
